@@ -410,3 +410,111 @@ package stat
 //@ loop 4: invariant [realx] psum(count, idx) + count[idx] == f64.fsum(weights, it)
 //@ invariant [realx] forall(k, idx+1, len(count), count[k] == 0)
 //@ loop 5: invariant [realx] psum(count, j) == psum(count, idx) + count[idx]
+
+// ---- ROC / TOC (roc.go) ------------------------------------------------------------------
+//
+// TOC. Documented contract: panics exactly when weights != nil and len(weights) != len(classes),
+// before any store; the arguments are not written (results are fresh); nil results for empty
+// classes, otherwise len(min) == len(ntp) == len(max) == len(classes)+1; no index fault.
+// In exact arithmetic ([real]), without weights: the first elements are 0, the last elements of
+// min and max equal the last element of ntp (the number of true classes), min <= ntp <= max
+// pointwise and all three sequences are non-decreasing. The same four clauses for non-negative
+// weights (nn; nonneg(nil) is true, so they subsume the unweighted ones) are decided in the
+// thorough tier only ([realx]: 36-40 s on a quiet machine, 140 s and flaky with the invariants
+// written as conjunctions, hence one fact per invariant; max is reused as the cumulative weight
+// and overwritten in the last loop, the invariants of loop 4 carry the facts about the not yet
+// overwritten suffix).
+// Narrowed: "the first element of ntp, min and max are always zero" and min <= ntp <= max hold
+// only for non-negative weights, which the documentation does not require:
+// TOC([true,false], [1,-1]) returns min = [1 0 1], ntp = [0 0 1], max = [0 -1 0] (reproduced).
+// Not stated: the defining sum ntp_i = sum_{j >= n-i} [classes_j]*weights_j (left out for time).
+
+//@ spec nonneg(w []float64) bool = forall(k, 0, len(w), w[k] >= 0)
+
+//@ func TOC props: C10
+//@ floats: ieee
+//@ valid weights == nil || len(classes) == len(weights)
+//@ panics iff !valid, before-writes
+//@ writes nothing
+//@ ensures len(classes) == 0 ==> len(min) == 0 && len(ntp) == 0 && len(max) == 0
+//@ ensures len(classes) != 0 ==> len(min) == len(classes)+1 && len(ntp) == len(classes)+1 && len(max) == len(classes)+1
+//@ let n = len(classes)
+//@ let nn = nonneg(weights)
+//@ ensures [real] n > 0 && weights == nil ==> ntp[0] == 0 && min[0] == 0 && max[0] == 0
+//@ ensures [real] n > 0 && weights == nil ==> min[n] == ntp[n] && max[n] == ntp[n]
+//@ ensures [real] n > 0 && weights == nil ==> forall(k, 0, n+1, min[k] <= ntp[k] && ntp[k] <= max[k])
+//@ ensures [real] n > 0 && weights == nil ==> forall(k, 0, n, ntp[k] <= ntp[k+1] && min[k] <= min[k+1] && max[k] <= max[k+1])
+//@ ensures [realx] n > 0 && nn ==> ntp[0] == 0 && min[0] == 0 && max[0] == 0
+//@ ensures [realx] n > 0 && nn ==> min[n] == ntp[n] && max[n] == ntp[n]
+//@ ensures [realx] n > 0 && nn ==> forall(k, 0, n+1, min[k] <= ntp[k] && ntp[k] <= max[k])
+//@ ensures [realx] n > 0 && nn ==> forall(k, 0, n, ntp[k] <= ntp[k+1] && min[k] <= min[k+1] && max[k] <= max[k+1])
+//@ loop 1: invariant [real] forall(k, 0, it+1, 0 <= ntp[k] && ntp[k] <= float64(k))
+//@ invariant [real] forall(k, 0, it, ntp[k] <= ntp[k+1])
+//@ invariant [real] forall(k, 0, it+1, ntp[k] <= ntp[it] && ntp[it] - ntp[k] <= float64(it-k))
+//@ loop 2: invariant [real] forall(k, 0, it, min[k] == ite(totalPositive - float64(n-k) > 0, totalPositive - float64(n-k), 0))
+//@ invariant [real] forall(k, 0, it, max[k] == ite(totalPositive < float64(k), totalPositive, float64(k)))
+//@ loop 3: invariant [realx] nn ==> forall(k, 0, it+1, 0 <= ntp[k] && ntp[k] <= cumw[k])
+//@ invariant [realx] nn ==> forall(k, 0, it, ntp[k] <= ntp[k+1])
+//@ invariant [realx] nn ==> forall(k, 0, it, cumw[k] <= cumw[k+1])
+//@ invariant [realx] nn ==> forall(k, 0, it+1, ntp[k] <= ntp[it])
+//@ invariant [realx] nn ==> forall(k, 0, it+1, cumw[k] <= cumw[it])
+//@ invariant [realx] nn ==> forall(k, 0, it+1, ntp[it] - ntp[k] <= cumw[it] - cumw[k])
+//@ invariant [realx] ntp[0] == 0 && cumw[0] == 0
+//@ loop 4: invariant [realx] ntp[0] == 0 && (it == 0 ==> cumw[0] == 0) && (it <= n ==> cumw[n] == totw)
+//@ invariant [realx] nn ==> forall(k, 0, it, min[k] <= ntp[k] && ntp[k] <= max[k])
+//@ invariant [realx] nn ==> forall(k, it, n+1, 0 <= ntp[k] && ntp[k] <= totalPositive)
+//@ invariant [realx] nn ==> forall(k, it, n+1, ntp[k] <= cumw[k] && cumw[k] <= totw)
+//@ invariant [realx] nn ==> forall(k, it, n+1, totalPositive - ntp[k] <= totw - cumw[k])
+//@ invariant [realx] nn ==> forall(k, it, n, cumw[k] <= cumw[k+1])
+//@ invariant [realx] nn ==> forall(k, 0, it-1, min[k] <= min[k+1] && max[k] <= max[k+1])
+//@ invariant [realx] nn && it > 0 && it <= n ==> max[it-1] <= totalPositive && max[it-1] <= cumw[it] && (min[it-1] <= 0 || min[it-1] <= totalPositive - (totw - cumw[it]))
+//@ invariant [realx] nn && it > 0 ==> min[0] == 0 && max[0] == 0
+//@ invariant [realx] nn && it > n ==> min[n] == totalPositive && max[n] == totalPositive
+
+// ROC. Documented contract: panics exactly on a length mismatch of y/classes/(non-nil) weights,
+// on unsorted y or unsorted cutoffs (sort.Float64sAreSorted), before any store; nil results for
+// empty y; len(tpr) == len(fpr) == len(thresh), equal to len(cutoffs) for non-empty cutoffs and
+// between 2 and len(y)+1 (one more than the number of distinct values of y) otherwise; no index
+// fault for any valid input (empty y, all classes equal, nil weights, nil/empty cutoffs, cutoffs
+// entirely below or above y). Opaque float comparisons (safety does not depend on them; with
+// floats: ieee the run needs 270 s and cvc5 rejects the queries: "Parse Error ... Invalid argument
+// '(fp #b0 ...)' for 'val'", an engine glitch with the literal math.Inf(1)).
+//
+// FINDING (frame): the arguments are not all left alone. For an EMPTY, NON-NIL cutoffs with
+// cap(cutoffs) >= len(y)+1 the code reslices the caller's array (cutoffs[:len(y)+1]), stores the
+// thresholds and +Inf into it, reverses it in place and returns it as thresh. The documentation
+// says only "If cutoffs is nil or empty, all possible cutoffs are calculated" (and the code's
+// own comment in the other branch: "Don't mutate the provided cutoffs"). With `writes nothing`
+// the obligations frame[cutoffs[bin]] (roc.go:65, 71), frame[cutoffs[bin+1]] (roc.go:73) and
+// frame[slices.Reverse(cutoffs)] (roc.go:123) fail (sat). Reproduced:
+//     buf := []float64{10, 20, 30, 40, 50}
+//     _, _, th := stat.ROC(buf[:0], []float64{1, 2, 3}, []bool{false, true, true}, nil)
+//     // buf is now [+Inf 3 2 1 50] and &th[0] == &buf[0]
+// The clause below is narrowed to what the code does (cells cutoffs[0:cap) when len(cutoffs) == 0);
+// the documented contract would be `writes nothing`.
+//
+// FINDING (NaN): y with leading NaNs passes the documented sortedness check
+// (sort.Float64sAreSorted orders NaN first) and yields a degenerate curve: bin never advances
+// past the NaN threshold. ROC(nil, [NaN 1 2], [true false true], nil) returns tpr = [0 0 0 1],
+// fpr = [0 0 0 1], thresh = [+Inf 2 1 NaN]; by the definition tpr for y >= 2 is 1/2 and fpr for
+// y >= 1 is 1 (reproduced). The same for a NaN cutoff: ROC([NaN 2.5], [1 2 3], [false true true])
+// returns tpr = [0 1] (tpr for y >= 2.5 is 1/2). No value clause is stated in the IEEE pass;
+// the exact-arithmetic pass has no NaN.
+// Observation: when only one class occurs the missing rate is NaN throughout (0 * (1/0)):
+// ROC(nil, [1 2 3], [true true true], nil) returns fpr = [NaN NaN NaN NaN]; undocumented.
+//
+// Left out (time box, and the function is already at the 40 s limit): the [real] value clauses
+// (tpr, fpr non-decreasing, first point 0 when all cutoffs are calculated, last point 1 when both
+// classes occur, values in [0,1] for non-negative weights). They need invariants that relate the
+// per-bin negative counts to the running totals nPos, nNeg across the in-place 1 - count/total
+// conversion and the three reversals.
+//@ func ROC props: C10
+//@ valid len(y) == len(classes) && (weights == nil || len(y) == len(weights)) && sortedFloats(y) && sortedFloats(cutoffs)
+//@ panics iff !valid, before-writes
+//@ writes cutoffs[k] for k in 0..cap(cutoffs) if len(cutoffs) == 0
+//@ ensures len(tpr) == len(fpr) && len(fpr) == len(thresh)
+//@ ensures len(y) == 0 ==> len(tpr) == 0
+//@ ensures len(cutoffs) > 0 && len(y) > 0 ==> len(tpr) == len(cutoffs)
+//@ ensures len(cutoffs) == 0 && len(y) > 0 ==> 2 <= len(tpr) && len(tpr) <= len(y)+1
+//@ loop 2: invariant 0 <= bin && bin < len(cutoffs)
+//@ loop 3: invariant 0 <= bin && bin < len(cutoffs)
